@@ -89,8 +89,8 @@ Lemma add_var_tys cfg r sc name t suffix r' sc' idx :
   map v_ty (sc_vars sc') = (map v_ty (sc_vars sc) ++ [t])%list.
 Proof.
   unfold add_var. destruct (populate cfg r (refs t) []) as [[r1 imps]| | | |]; try discriminate.
-  cbn [bind]. destruct (_ && _); [discriminate|].
-  set (vs1 := rename_for_imports (sc_vars sc) (map (imp_qualifier r1) imps)).
+  cbn [bind].
+  set (vs1 := rename_for_imports (sc_vars sc) (var_quals r1 imps)).
   set (n1 := match search_import r1 (var_name name t suffix) with Some _ => _ | None => _ end).
   destruct (has_var vs1 n1 || str_mem n1 (sc_conflicted sc)).
   - unfold resolve_var_name_conflict. cbn [sc_vars sc_conflicted].
